@@ -93,6 +93,11 @@ def actScope : Req → Option Scope
   | .activate s => some s
   | _ => none
 
+@[simp] theorem actScope_activate {s} : actScope (.activate s) = some s := rfl
+@[simp] theorem actScope_deactivate {s} : actScope (.deactivate s) = none := rfl
+@[simp] theorem actScope_ident : actScope .ident = none := rfl
+@[simp] theorem actScope_disconnect : actScope .disconnect = none := rfl
+
 /-- the scope a request thread has entered into the table and not yet announced as `active` -/
 def registered : HPc → Option Scope
   | .relSub r => actScope r
@@ -341,7 +346,7 @@ theorem lossInv_event (cfg : Cfg) (σ σ' : State) (c : Conn) (o : Obs) (pc : HP
     (hob : obsUpd o = none) (hoc : ∀ c', c' ≠ c → obsConn o ≠ some c')
     (htb : ∀ c' a, tableHas σ' c' a = tableHas σ c' a)
     (hrep : ∀ s, o = .reply c (.activate s) true → registered (σ.hpc c) = some s)
-    (hreg : registered pc = none)
+    (hreg : ∀ s, registered pc = some s → registered (σ.hpc c) = some s)
     (hcl : ∀ r, closing pc = some r → o = .reqStart c r) : LossInv cfg σ' := by
   constructor
   · rw [htr, lossAcc_append, hI.acc, lossOk_of_notUpd _ _ hob]; rfl
@@ -357,7 +362,7 @@ theorem lossInv_event (cfg : Cfg) (σ σ' : State) (c : Conn) (o : Obs) (pc : HP
     rw [htb]
     rw [hpc, set_apply] at h
     split at h
-    · rw [hreg] at h; cases h
+    · rename_i hc; subst hc; exact hI.reg c' s (hreg s h)
     · exact hI.reg c' s h
   · intro c' r h a ha
     rw [htr, lossAfter_append, lossNext_firm] at ha
@@ -379,11 +384,129 @@ theorem lossInv_stepH (cfg : Cfg) (σ σ' : State) (c : Conn) (hI : LossInv cfg 
   step_cases hs
   all_goals first
     | exact lossInv_quiet cfg σ _ c _ hI rfl rfl rfl (by intro c' a; cases a <;> rfl) (by simp [*]) (by simp [*])
-    | exact lossInv_event cfg σ _ c _ _ hI rfl rfl rfl rfl (by intro c' hc; simp [obsConn]; exact fun h => hc h.symm)
-        (by intro c' a; cases a <;> rfl) (by simp [*]) (by simp [*]) (by simp [*])
+    | exact lossInv_event cfg σ _ c _ _ hI rfl rfl rfl rfl (by intro c' hc; simp [obsConn] <;> exact fun h => hc h.symm)
+        (by intro c' a; cases a <;> rfl) (by intro s h; cases h <;> simp_all) (by simp [*]; done) (by simp [*]; done)
     | exact lossInv_write cfg σ _ c _ _ hI (by simp) (by simp) rfl (by simp [*]; rfl) (by intro c' a; cases a <;> rfl) (by simp) (by simp)
-    | skip
-  all_goals trace_state
-  all_goals sorry
+
+/-! ## updater steps -/
+
+theorem firmNext_noConn (firm : Conn → List Scope) (o : Obs) (h : obsConn o = none) : firmNext firm o = firm := by
+  cases o <;> first | rfl | (simp [obsConn] at h)
+
+theorem mem_listeners_of_covered (cfg : Cfg) (σ : State) (hI : LossInv cfg σ) (c : Conn) (m : Mod) (p : Par)
+    (hc : c ∈ cfg.conns) (hcov : coveredBy ((lossAfter cfg σ.trace).firm c) m p = true) :
+    c ∈ listeners cfg σ m p := by
+  simp only [coveredBy, List.any_eq_true] at hcov
+  obtain ⟨s, h1, h2⟩ := hcov
+  simp only [listeners, List.mem_filter]
+  exact ⟨hc, (listens_iff σ c m p).2 ⟨s, hI.tbl c s h1, h2⟩⟩
+
+/-- an updater moves without event -/
+theorem lossInv_uquiet (cfg : Cfg) (σ σ' : State) (k : Nat) (pc : UPc) (hI : LossInv cfg σ)
+    (htr : σ'.trace = σ.trace) (hpc : σ'.hpc = σ.hpc) (hupc : σ'.upc = set σ.upc k pc)
+    (htb : ∀ c' a, tableHas σ' c' a = tableHas σ c' a)
+    (hobl : oblRel cfg (lossAfter cfg σ.trace).firm pc ((lossAfter cfg σ.trace).oblig k)) : LossInv cfg σ' := by
+  constructor
+  · rw [htr]; exact hI.acc
+  · intro c' s h; rw [htr] at h; rw [htb]; exact hI.tbl c' s h
+  · intro c' s h; rw [htb]; rw [hpc] at h; exact hI.reg c' s h
+  · intro c' r h; rw [htr]; rw [hpc] at h; exact hI.pend c' r h
+  · intro k'
+    rw [htr, hupc, set_apply]
+    split
+    · rename_i hk; subst hk; exact hobl
+    · exact hI.obl k'
+
+/-- an updater appends an event -/
+theorem lossInv_uevent (cfg : Cfg) (σ σ' : State) (k : Nat) (o : Obs) (pc : UPc) (hI : LossInv cfg σ)
+    (htr : σ'.trace = σ.trace ++ [o]) (hpc : σ'.hpc = σ.hpc) (hupc : σ'.upc = set σ.upc k pc)
+    (htb : ∀ c' a, tableHas σ' c' a = tableHas σ c' a)
+    (hoc : obsConn o = none) (hou : ∀ k', k' ≠ k → obsUpd o ≠ some k')
+    (hok : lossOk (lossAfter cfg σ.trace) o = true)
+    (hobl : oblRel cfg (lossAfter cfg σ.trace).firm pc ((lossNext cfg (lossAfter cfg σ.trace) o).oblig k)) :
+    LossInv cfg σ' := by
+  have hfirm : (lossAfter cfg σ'.trace).firm = (lossAfter cfg σ.trace).firm := by
+    rw [htr, lossAfter_append, lossNext_firm, firmNext_noConn _ _ hoc]
+  constructor
+  · rw [htr, lossAcc_append, hI.acc, hok]; rfl
+  · intro c' s h; rw [hfirm] at h; rw [htb]; exact hI.tbl c' s h
+  · intro c' s h; rw [htb]; rw [hpc] at h; exact hI.reg c' s h
+  · intro c' r h; rw [hfirm]; rw [hpc] at h; exact hI.pend c' r h
+  · intro k'
+    rw [hupc, set_apply]
+    split
+    · rename_i hk; subst hk
+      rw [hfirm, htr, lossAfter_append]; exact hobl
+    · rename_i hk
+      rw [htr, lossAfter_append]
+      exact oblRel_next cfg _ o _ k' (hou k' hk) (hI.obl k')
+
+theorem oblRel_send (cfg : Cfg) (firm : Conn → List Scope) (ob : Option Oblig) (m : Mod) (p : Par) (e : Entry)
+    (ls : List Conn) (arg : Conn) (h : oblRel cfg firm (.sending m p e ls) ob) :
+    oblRel cfg firm (.sending m p e (ls.filter (fun c => c != arg)))
+      (ob.map (fun o => if o.m = m ∧ o.p = p ∧ o.e = e then { o with l := o.l.filter (fun c' => c' != arg) } else o)) := by
+  simp only [oblRel_sending] at *
+  obtain ⟨o, rfl, hm, hp, he, hl⟩ := h
+  refine ⟨{ o with l := o.l.filter (fun c' => c' != arg) }, ?_, hm, hp, he, ?_⟩
+  · simp [hm, hp, he]
+  · intro c hc
+    simp only [List.mem_filter] at *
+    exact ⟨hl c hc.1, hc.2⟩
+
+theorem lossInv_stepU (cfg : Cfg) (σ σ' : State) (k : Nat) (arg : Conn) (hI : LossInv cfg σ)
+    (hs : stepU cfg σ k arg = some σ') : LossInv cfg σ' := by
+  have hk := hI.obl k
+  unfold stepU at hs
+  step_cases hs
+  all_goals first
+    | refine lossInv_uquiet cfg σ _ k _ hI rfl rfl rfl (by intro c' a; cases a <;> rfl) ?_
+    | refine lossInv_uevent cfg σ _ k _ _ hI rfl rfl rfl (by intro c' a; cases a <;> rfl) rfl ?_ ?_ ?_
+  all_goals (simp only [*] at hk)
+  all_goals try (intro k' hk'; simp [obsUpd] <;> exact fun h => hk' h.symm)
+  all_goals try (simp_all [lossOk, obligNext]; done)
+  · -- the store: the obligation list is what `firm` covers now
+    simp only [lossNext_oblig, obligNext, set_same, oblRel_wantSub]
+    refine ⟨_, rfl, rfl, rfl, rfl, ?_⟩
+    intro c hc
+    simpa [List.mem_filter, firmNext] using hc
+  · -- the listener selection
+    simp only [oblRel_wantSub, oblRel_sending] at hk ⊢
+    obtain ⟨o, h1, h2, h3, h4, h5⟩ := hk
+    exact ⟨o, h1, h2, h3, h4, fun c hc => mem_listeners_of_covered cfg σ hI c _ _ (h5 c hc).1 (h5 c hc).2⟩
+  · -- nothing left to send
+    simp only [oblRel_sending, oblRel_relUpd_true] at hk ⊢
+    obtain ⟨o, h1, _, _, _, h5⟩ := hk
+    refine ⟨o, h1, ?_⟩
+    cases hl : o.l with
+    | nil => rfl
+    | cons x xs => exact absurd (h5 x (by simp [hl])) (by simp)
+  · -- one send
+    simp only [lossNext_oblig, obligNext]
+    exact oblRel_send cfg _ _ _ _ _ _ arg hk
+  · -- the assignment returns: nothing is owed
+    simp only [oblRel_relUpd_true] at hk
+    obtain ⟨o, h1, h2⟩ := hk
+    simp [lossOk, h1, h2]
+
+theorem lossInv_step (cfg : Cfg) (σ σ' : State) (a : Act) (hI : LossInv cfg σ) (hs : step cfg σ a = some σ') :
+    LossInv cfg σ' := by
+  unfold step at hs
+  split at hs
+  · exact lossInv_stepH cfg σ σ' _ hI hs
+  · exact lossInv_stepU cfg σ σ' _ _ hI hs
+
+theorem lossInv_reach (cfg : Cfg) (hs us cache) (σ : State) (h : Reach cfg (init hs us cache) σ) : LossInv cfg σ := by
+  induction h with
+  | init => exact lossInv_init cfg hs us cache
+  | step a _ hstep ih => exact lossInv_step cfg _ _ a ih hstep
+
+/-- `NoLoss` holds of the trace of every reachable state -/
+theorem noLoss_reach (cfg : Cfg) (hs us cache) (σ : State) (h : Reach cfg (init hs us cache) σ) :
+    (lossMon cfg).acceptsFrom (lossMon cfg).init σ.trace = true :=
+  (lossInv_reach cfg hs us cache σ h).acc
+
+theorem noLoss_reach' (cfg : Cfg) (hs us cache) (σ : State) (h : Reach cfg (init hs us cache) σ) :
+    NoLoss cfg σ.trace :=
+  noLoss_reach cfg hs us cache σ h
 
 end Frappy.Activate
